@@ -33,6 +33,9 @@ Definition gadget_cell (wb b : Z) (n size rank_out dsize : nat) (nk : Z) (row pt
   | None => None
   end.
 
+Definition eqlz (a b : list Z) : bool := Nat.eqb (length a) (length b) && forallb (fun q => fst q =? snd q) (combine a b).
+Definition bz (b : bool) : Z := if b then 1 else 0.
+
 Definition run_gglwe_compressed (ps : list Z) (vs : list (list Z)) : option (list (list Z)) :=
   let wb := wbig (p ps 0) in
   let n := np ps 1 in let b := p ps 2 in let size := np ps 3 in let rin := np ps 4 in let rout := np ps 5 in
@@ -42,16 +45,27 @@ Definition run_gglwe_compressed (ps : list Z) (vs : list (list Z)) : option (lis
   let parent := v vs 2 in
   let clen := (rout * size * n)%nat in
   let slots := flat_map (fun row => map (fun col => (row, col)) (seq 0 rin)) (seq 0 dnum) in
-  let seeds := concat (map (fun rc => if kind =? 4 then [0; 0; 0; 0]
-                                      else slice (4 * gglwe_draw_index dnum (fst rc) (snd rc)) 4 parent) slots) in
-  match sequence (map (fun rc =>
+  let drawn := concat (map (fun rc => slice (4 * gglwe_draw_index dnum (fst rc) (snd rc)) 4 parent) slots) in
+  let seeds := if kind =? 4 then map (fun _ => 0) drawn else drawn in
+  let cell := fun (rc : nat * nat) (enc_child : list Z) =>
            let row := fst rc in let col := snd rc in
-           gadget_cell wb b n size rout dsize nk row O (nth col ms []) sk
-             (slice (gglwe_seed_slot rin row col * clen) clen (v vs 3))
+           gadget_cell wb b n size rout dsize nk row O (nth col ms []) sk enc_child
              (slice (gglwe_seed_slot rin row col * clen) clen (v vs 5))
-             (slice (gglwe_draw_index dnum row col * n) n (v vs 4))) slots) with
+             (slice (gglwe_draw_index dnum row col * n) n (v vs 4)) in
+  match sequence (map (fun rc => cell rc (slice (gglwe_seed_slot rin (fst rc) (snd rc) * clen) clen (v vs 3))) slots) with
   | None => None
-  | Some cells => Some [seeds; concat (map (of_cols n size) cells); v vs 6]
+  | Some cells =>
+      (* per cell: does the decompressed cell equal the standard encryption under the STORED seed's stream?  (true by
+         C19_decompress_glwe_eq_standard when stored = drawn; recomputed when the code does not store the drawn seed) *)
+      let std := map (fun q =>
+           let rc := fst (fst q) in let c := snd (fst q) in let ex := snd q in
+           if ex =? 2 then 2 else if kind =? 4 then
+             match cell rc (slice (gglwe_seed_slot rin (fst rc) (snd rc) * clen) clen (v vs 5)) with
+             | Some c' => bz (eqlz (of_cols n size c) (of_cols n size c'))
+             | None => 0
+             end
+           else 1) (combine (combine slots cells) (v vs 6)) in
+      Some [seeds; concat (map (of_cols n size) cells); std ++ [bz (eqlz seeds drawn); 1; 1; 1]]
   end.
 
 Definition run_ggsw_compressed (ps : list Z) (vs : list (list Z)) : option (list (list Z)) :=
